@@ -2,7 +2,7 @@
 # tools/seedmatrix.sh [ID-n ...] : run every seeded change (or the named ones) against the check of its
 # property and, if that does not catch it, against the related checks listed below. Writes seeded/MATRIX.tsv.
 cd "$(dirname "$0")/.."
-declare -A ALSO=( [C19-7]="C01" [C19-8]="C03" [C19-9]="C03 C09" [C03-11]="C01" [C17-9]="C07 C14" [C01-7]="C19 C03" [C01-9]="C13" [C10-9]="C06" [C09-7]="C02 C15" [C09-9]="C10 C03" [C18-7]="" [C04-7]="C12" [C04-8]="C07" [C14-7]="C02 C03" [C14-9]="C17" [C02-7]="C01 C19" [C02-8]="C17" [C02-9]="C15 C08" [C06-7]="C03" [C06-9]="C15 C08" [C07-7]="C06" [C08-7]="C16 C15" [C08-8]="C15" [C08-9]="C15" [C05-7]="C04" [C05-8]="C04 C07" [C05-9]="C03 C06 C13" [C03-7]="C01" [C03-8]="C01" [C04-4]="C12" [C04-5]="C12" [C05-4]="C06" [C05-5]="C12" [C05-6]="C12" [C07-4]="C14" [C07-6]="C06" [C08-4]="C15" [C08-5]="C15" [C03-4]="C19" [C09-6]="C14" [C17-1]="C09" [C04-3]="C12" [C05-3]="C03 C06" [C13-3]="C01 C03" [C10-3]="C03 C09" [C09-1]="C10" [C02-2]="C01" [C03-2]="C01" [C01-2]="C13" )
+declare -A ALSO=( [C10-10]="C09 C03" [C05-10]="C06" [C04-10]="C12" [C04-11]="C12" [C01-12]="C03 C06 C13" [C07-11]="C09 C02 C15" [C03-13]="C01" [C09-12]="C10" [C14-12]="C15 C06" [C08-11]="C17" [C06-11]="C15" [C20-11]="C17" [C19-7]="C01" [C19-8]="C03" [C19-9]="C03 C09" [C03-11]="C01" [C17-9]="C07 C14" [C01-7]="C19 C03" [C01-9]="C13" [C10-9]="C06" [C09-7]="C02 C15" [C09-9]="C10 C03" [C18-7]="" [C04-7]="C12" [C04-8]="C07" [C14-7]="C02 C03" [C14-9]="C17" [C02-7]="C01 C19" [C02-8]="C17" [C02-9]="C15 C08" [C06-7]="C03" [C06-9]="C15 C08" [C07-7]="C06" [C08-7]="C16 C15" [C08-8]="C15" [C08-9]="C15" [C05-7]="C04" [C05-8]="C04 C07" [C05-9]="C03 C06 C13" [C03-7]="C01" [C03-8]="C01" [C04-4]="C12" [C04-5]="C12" [C05-4]="C06" [C05-5]="C12" [C05-6]="C12" [C07-4]="C14" [C07-6]="C06" [C08-4]="C15" [C08-5]="C15" [C03-4]="C19" [C09-6]="C14" [C17-1]="C09" [C04-3]="C12" [C05-3]="C03 C06" [C13-3]="C01 C03" [C10-3]="C03 C09" [C09-1]="C10" [C02-2]="C01" [C03-2]="C01" [C01-2]="C13" )
 LIST="${@:-$(ls seeded | grep -E '^C[0-9]+-[0-9]+$' | sort)}"
 OUT=${MATRIX_OUT:-seeded/MATRIX.tsv}
 [ $# -eq 0 ] && printf "seed\tproperty\tcaught_by\tclause\tnot_caught_by\n" > $OUT
